@@ -375,7 +375,9 @@ func (c *stepCheck) checkStop(hung bool) {
 			if isHandler(r.Name) {
 				continue
 			}
-			if r.EndSeq == 0 || r.EndAt > limit {
+			// the scheduler counts from the start of scheduling, a few milliseconds before the first spawn: a
+			// step cut by the timeout ends just *before* this limit, so the signal it received is the witness
+			if r.EndSeq == 0 || r.EndAt > limit || len(r.Signals) > 0 || r.Signaled != "" {
 				timedOut = true
 			}
 		}
@@ -400,7 +402,17 @@ func (c *stepCheck) checkStop(hung bool) {
 			return
 		}
 		if agentExitAt > limit+cleanup+stopSlack+maxExitDelay(d) {
-			c.viol("C05", "run-not-ended-in-bound", "timeout", "the run ended %v after its timeout (bound %v)", agentExitAt-limit, cleanup+stopSlack)
+			disc := "timeout"
+			// a background child whose command had already exited when the timeout elapsed: the timeout acts
+			// through the command's context, which has nothing left to kill then
+			for _, b := range c.truth.Bg {
+				if b.StartAt < limit && (b.EndSeq == 0 || b.EndAt > limit+cleanup) {
+					if cmdRun := c.truth.byPid[b.AgentPid]; cmdRun != nil && cmdRun.EndSeq != 0 && cmdRun.EndAt < limit && cmdRun.Signaled == "" && len(cmdRun.Signals) == 0 {
+						disc = "timeout/background-child-of-exited-command"
+					}
+				}
+			}
+			c.viol("C05", "run-not-ended-in-bound", disc, "the run ended %v after its timeout (bound %v)", agentExitAt-limit, cleanup+stopSlack)
 		}
 		if c.final != nil && c.final.Status.String() != "canceled" {
 			c.viol("C05", "timeout-outcome", c.final.Status.String(), "run that hit its timeout is reported %q", c.final.Status.String())
